@@ -139,6 +139,13 @@ pub mod common_stub {
         pub enum Error {
             Bpf(BpfErrorType),
         }
+        // the real error types are Display (thiserror); the text is log/error text only (not modelled)
+        impl core::fmt::Display for BpfErrorType {
+            fn fmt(&self, f: &mut core::fmt::Formatter<'_>) -> core::fmt::Result { f.write_str("bpf error") }
+        }
+        impl core::fmt::Display for Error {
+            fn fmt(&self, f: &mut core::fmt::Formatter<'_>) -> core::fmt::Result { f.write_str("error") }
+        }
     }
     pub mod logger {
         pub const AGENT_LOGGER_KEY: &str = "Agent_Log";
